@@ -16,10 +16,12 @@
 EXTENDS Mesh
 
 CONSTANTS N1, N2, MaxLev, MaxFine, Origins,
-          OriginMode     \* "subtract" (repaired code) | "ignore" (mutant = original code)
+          OriginMode,    \* "subtract" (repaired code) | "ignore" (mutant = original code)
+          MaxQ           \* 1 | 2: number of queries made on ONE selector object (the answer to a query must not
+                         \* depend on the queries made before it)
 
-VARIABLES M, origin, qlev, qcell, outside, pc, result
-vvars == <<M, origin, qlev, qcell, outside, pc, result>>
+VARIABLES M, origin, qlev, qcell, outside, pc, result, asked
+vvars == <<M, origin, qlev, qcell, outside, pc, result, asked>>
 
 F == Len(M) - 1
 U(l) == 2 * Pow2(F - l)
@@ -47,7 +49,7 @@ Init ==
   /\ M \in Meshes /\ origin \in Origins
   /\ \/ (outside = FALSE /\ \E q \in Queryable(M) : qlev = q[1] /\ qcell = q[2])
      \/ (outside = TRUE /\ qlev = 0 /\ qcell \in {<<-1, 0>>, <<N1, 0>>, <<0, -1>>, <<0, N2>>, <<N1 + 5, N2 + 5>>})
-  /\ pc = "query" /\ result = <<"none">>
+  /\ pc = "query" /\ result = <<"none">> /\ asked = <<>>
 
 \* absolute position (units) of the query point along axis d
 Pos(d) == origin + Centre(qlev, qcell[d])
@@ -79,12 +81,20 @@ Query ==
                      THEN result' = <<"cell", li, <<M[li + 1][b].lo[1] + loc(1) \div U(li), M[li + 1][b].lo[2] + loc(2) \div U(li)>>>>
                      ELSE result' = <<"offgrid">>        \* interpolated between cells or outside the box
         ELSE result' = <<"multibox">>                    \* CASE 2 of the code: not reached for interior centres
-  /\ pc' = "done"
+  /\ asked' = Append(asked, [lev |-> qlev, cell |-> qcell, outside |-> outside])
+  /\ pc' = IF Len(asked) + 1 < MaxQ /\ ~outside THEN "next" ELSE "done"
   /\ UNCHANGED <<M, origin, qlev, qcell, outside>>
 
-Next == Query
+\* the same selector object is asked about another cell (same in-plane column, to keep the instance small)
+AskAgain ==
+  /\ pc = "next"
+  /\ \E q \in Queryable(M) : q[2][2] = qcell[2] /\ <<q[1], q[2]>> # <<qlev, qcell>> /\ qlev' = q[1] /\ qcell' = q[2]
+  /\ pc' = "query"
+  /\ UNCHANGED <<M, origin, outside, result, asked>>
+
+Next == Query \/ AskAgain
 Spec == Init /\ [][Next]_vvars /\ WF_vvars(Next)
 
-PointRefines == pc = "done" =>
+PointRefines == pc \in {"done", "next"} =>
    IF outside THEN result = <<"err">> ELSE result = <<"cell", qlev, qcell>>
 =============================================================================
